@@ -298,8 +298,8 @@ fn gen_line(t: &mut Tape, hostile: bool, neg_zero: bool, clock: &mut f64) -> Str
     };
     let time = if neg_zero && t.chance(25) { "-0".to_string() } else { time };
     let bl: String = match t.weighted(&[6, 6, 2, if hostile { 2 } else { 0 }]) {
-        0 => (*t.pick(&["500", "1", "100000", "0", "333.33", "6", "60000", "59999.5", "250"])).to_string(),
-        1 => (*t.pick(&["-100", "-50", "-1000", "-2000", "-5", "-100", "-133.33", "-10", "-0.5", "-20000", "NaN", "-0"])).to_string(),
+        0 => (*t.pick(&["500", "1", "100000", "0", "333.33", "6", "60000", "59999.5", "250", "1000", "2147483647", "2147483647.25", "2147483647.5", "2147483646.75"])).to_string(),
+        1 => (*t.pick(&["-100", "-50", "-1000", "-2000", "-5", "-100", "-133.33", "-10", "-0.5", "-20000", "NaN", "-0", "-2147483647", "-2147483647.25", "-2147483647.5"])).to_string(),
         2 => (*t.pick(&[" 250 ", "5e2", "+400", "-1e2", "nan", "-NaN"])).to_string(),
         _ => {
             if t.chance(50) {
@@ -321,7 +321,12 @@ fn gen_line(t: &mut Tape, hostile: bool, neg_zero: bool, clock: &mut f64) -> Str
     let mut l = format!("{time},{bl}");
     for f in fields.iter().take(nf.min(6)) {
         l.push(',');
-        l.push_str(f);
+        if hostile && t.chance(6) {
+            // every field has its own parse and its own bound
+            l.push_str(*t.pick(&["2147483647", "2147483648", "-2147483647", "-2147483648", "-2147483649", "4294967296", "99999999999", "1e1", "+1", "01", "1.0", "1.5", "-0", " 1", "1 ", "0x1", "", "3", "4", "5", "255", "256", "-1", "100", "101", "1000", "2147483649"]));
+        } else {
+            l.push_str(f);
+        }
     }
     if nf == 7 && t.chance(10) {
         l.push_str(",extra");
